@@ -106,8 +106,41 @@ def parse(src: str):
         m = EDGE.match(ln)
         if m:
             key = (int(m.group(1)), int(m.group(2)), int(m.group(3)), int(m.group(4)))
+            rest = m.group(5)
+            # a quoted label may contain newlines: join lines until the closing quote
+            if rest.startswith('"'):
+                def closed(txt):
+                    k = 1
+                    while k < len(txt):
+                        if txt[k] == "\\" and k + 1 < len(txt) and txt[k + 1] == '"':
+                            k += 2
+                            continue
+                        if txt[k] == '"':
+                            return True
+                        k += 1
+                    return False
+
+                while not closed(rest) and i + 1 < len(lines):
+                    i += 1
+                    rest += "\n" + lines[i]
+            elif rest.startswith("<"):
+                def balanced(txt):
+                    d = 0
+                    for ch in txt:
+                        if ch == "<":
+                            d += 1
+                        elif ch == ">":
+                            d -= 1
+                            if d == 0:
+                                return True
+                    return False
+
+                while not balanced(rest) and i + 1 < len(lines):
+                    i += 1
+                    rest += "\n" + lines[i]
+            m_rest = rest
             edges[key] += 1
-            edge_labels.setdefault(key, []).append(sorted(parse_label_attr(m.group(5))))
+            edge_labels.setdefault(key, []).append(sorted(parse_label_attr(m_rest)))
         i += 1
     return nodes, clusters, edges, edge_labels, dup
 
